@@ -203,3 +203,6 @@ def run(ctx):
     r5(ctx)
     from .c10 import selectors
     selectors(ctx, "C02.R6", pin=True)
+    # the preamble constants of a SEQUENCE / SET are printed from the model's own fields (shared with C03 / C08)
+    from .c03 import r5 as sequence_constants
+    sequence_constants(ctx, rule="C02.R7")
